@@ -4,3 +4,6 @@ import ParanoidModel.Model.Basic
 import ParanoidModel.Model.NTheory
 import ParanoidModel.Model.Factoring
 import ParanoidModel.Model.BatchGcd
+import ParanoidModel.Generated.Consts
+import ParanoidModel.Proofs.Factoring
+import ParanoidModel.Props.C01
